@@ -407,7 +407,7 @@ theorem decomp2 {α : Type} (l : List α) (i k : Nat) (hik : i < k) (hk : k < l.
 /-! ### the first and the last leg -/
 
 def firstEnter (legs : List JStep) : Option Conn := legs.head?.bind (·.enter)
-def lastStop (legs : List JStep) : Option Nat := legs.getLast?.bind (fun l => l.exit.map (·.arrStop))
+def lastExit (legs : List JStep) : Option Conn := legs.getLast?.bind (·.exit)
 
 theorem firstEnter_congr (A : List JStep) {F F' : JStep} (R R' : List JStep) (h : F'.enter = F.enter) :
     firstEnter (A ++ F' :: R') = firstEnter (A ++ F :: R) := by
@@ -415,17 +415,16 @@ theorem firstEnter_congr (A : List JStep) {F F' : JStep} (R R' : List JStep) (h 
   | nil => simp [firstEnter, h]
   | cons a b => simp [firstEnter]
 
-theorem lastStop_congr (X Y : List JStep) {T T' : JStep} (B : List JStep)
-    (h : T'.exit.map (·.arrStop) = T.exit.map (·.arrStop)) :
-    lastStop (X ++ T' :: B) = lastStop (Y ++ T :: B) := by
+/-- the last exit after replacing the leg before `B`: the same one when `B` is not empty, else the new leg's -/
+theorem lastExit_split (X : List JStep) (T : JStep) (B : List JStep) :
+    lastExit (X ++ T :: B) = if B = [] then T.exit else lastExit B := by
   cases B with
-  | nil => simp [lastStop, h]
+  | nil => simp [lastExit]
   | cons b r =>
-    simp only [lastStop]
-    rw [List.getLast?_append, List.getLast?_append]
-    have : (T' :: b :: r).getLast? = (b :: r).getLast? := List.getLast?_cons_cons
-    have h2 : (T :: b :: r).getLast? = (b :: r).getLast? := List.getLast?_cons_cons
-    rw [this, h2]
+    simp only [lastExit]
+    rw [List.getLast?_append]
+    have : (T :: b :: r).getLast? = (b :: r).getLast? := List.getLast?_cons_cons
+    rw [this]
     cases hg : (b :: r).getLast? with
     | none => simp at hg
     | some l => simp
@@ -433,8 +432,10 @@ theorem lastStop_congr (X Y : List JStep) {T T' : JStep} (B : List JStep)
 /-- the conditions on access and egress, in terms of `firstEnter` / `lastStop` -/
 structure EndsOK (cx : Ctx) (bd : Int) (acc egr : JStep) (legs : List JStep) : Prop where
   first : ∀ e, firstEnter legs = some e →
-    (⟨e.depStop, acc.walk, acc.dist⟩ : NTD) ∈ cx.accessFoot ∧ bd + acc.walk + e.effWait cx.p.minWait ≤ e.dep
-  last : ∀ y, lastStop legs = some y → (⟨y, egr.walk, egr.dist⟩ : NTD) ∈ cx.egressFoot
+    (⟨e.depStop, acc.walk, acc.dist⟩ : NTD) ∈ cx.accessFoot ∧ bd + acc.walk + e.effWait cx.p.minWait ≤ e.dep ∧
+    FirstWaitOK cx e acc.walk
+  last : ∀ x, lastExit legs = some x → (⟨x.arrStop, egr.walk, egr.dist⟩ : NTD) ∈ cx.egressFoot ∧
+    (cx.EgrNodup → x.arr + egr.walk ≤ cx.arrT)
 
 theorem journeyOK_iff {cx : Ctx} {C : List Conn} {bd : Int} {j : List JStep} :
     JourneyOK cx C bd j ↔ ∃ acc legs egr, j = [acc] ++ legs ++ [egr] ∧ acc.enter = none ∧ egr.enter = none ∧
@@ -442,20 +443,18 @@ theorem journeyOK_iff {cx : Ctx} {C : List Conn} {bd : Int} {j : List JStep} :
   constructor
   · rintro ⟨acc, legs, egr, hj, ha, he, hne, hok, hf, hl⟩
     refine ⟨acc, legs, egr, hj, ha, he, hne, hok, ⟨hf, ?_⟩⟩
-    intro y hy
-    simp only [lastStop] at hy
+    intro x hy
+    simp only [lastExit] at hy
     cases hg : legs.getLast? with
     | none => rw [hg] at hy; simp at hy
     | some l =>
       rw [hg] at hy
       simp only [Option.bind_some] at hy
-      cases hx : l.exit with
-      | none => rw [hx] at hy; simp at hy
-      | some x => rw [hx] at hy; simp at hy; subst hy; exact hl l x hg hx
+      exact hl l x hg hy
   · rintro ⟨acc, legs, egr, hj, ha, he, hne, hok, ⟨hf, hl⟩⟩
     refine ⟨acc, legs, egr, hj, ha, he, hne, hok, hf, ?_⟩
     intro l x hg hx
-    exact hl x.arrStop (by simp [lastStop, hg, hx])
+    exact hl x (by simp [lastExit, hg, hx])
 
 /-! ### applying a found case -/
 
@@ -542,19 +541,19 @@ theorem conclude2 {cx : Ctx} {C : List Conn} {bd : Int} {j : List JStep} {f : Fo
   · intro e he
     rw [firstEnter_congr A (M ++ T :: B) (T' :: B) hFe] at he
     exact s.hends.first e he
-  · intro y hy
-    have : lastStop (A ++ F' :: T' :: B) = lastStop (A ++ F :: (M ++ T :: B)) := by
+  · intro x hy
+    have : lastExit (A ++ F' :: T' :: B) = lastExit (A ++ F :: (M ++ T :: B)) := by
       have e1 : A ++ F' :: T' :: B = (A ++ [F']) ++ T' :: B := by simp
       have e2 : A ++ F :: (M ++ T :: B) = (A ++ F :: M) ++ T :: B := by simp
-      rw [e1, e2]; exact lastStop_congr _ _ B (by rw [hTx])
+      rw [e1, e2, lastExit_split, lastExit_split, hTx]
     rw [this] at hy
-    exact s.hends.last y hy
+    exact s.hends.last x hy
 
 /-- after a CSL rewrite -/
 theorem conclude1 {cx : Ctx} {C : List Conn} {bd : Int} {j : List JStep} {f : Found}
     {acc egr : JStep} {A : List JStep} {F : JStep} {M : List JStep} {T : JStep} {B : List JStep} {eF xF eT xT : Conn}
     (s : Setup cx C bd j f acc egr A F M T B eF xF eT xT) {F' : JStep} {c : Conn}
-    (hFe : F'.enter = F.enter) (hFx : F'.exit = some c) (hstop : c.arrStop = xT.arrStop)
+    (hFe : F'.enter = F.enter) (hFx : F'.exit = some c) (hstop : c.arrStop = xT.arrStop) (harr : c.arr ≤ xT.arr)
     (hok : LegsOK cx C (A ++ F' :: B)) :
     JourneyOK cx C bd ((acc :: A) ++ F' :: (B ++ [egr])) := by
   apply journeyOK_iff.mpr
@@ -562,12 +561,19 @@ theorem conclude1 {cx : Ctx} {C : List Conn} {bd : Int} {j : List JStep} {f : Fo
   · intro e he
     rw [firstEnter_congr A (M ++ T :: B) B hFe] at he
     exact s.hends.first e he
-  · intro y hy
-    have : lastStop (A ++ F' :: B) = lastStop (A ++ F :: (M ++ T :: B)) := by
-      have e2 : A ++ F :: (M ++ T :: B) = (A ++ F :: M) ++ T :: B := by simp
-      rw [e2]; exact lastStop_congr A _ B (by rw [hFx, s.hTx]; simp [hstop])
-    rw [this] at hy
-    exact s.hends.last y hy
+  · intro x hy
+    have e2 : A ++ F :: (M ++ T :: B) = (A ++ F :: M) ++ T :: B := by simp
+    have hold := s.hends.last
+    rw [e2] at hold
+    rw [lastExit_split] at hy
+    by_cases hB : B = []
+    · simp only [hB, if_true] at hy
+      rw [hFx] at hy; cases hy
+      have h0 := hold xT (by rw [lastExit_split]; simp [hB, s.hTx])
+      rw [hstop]
+      exact ⟨h0.1, fun hnd => by have := h0.2 hnd; omega⟩
+    · simp only [hB, if_false] at hy
+      exact hold x (by rw [lastExit_split]; simp [hB, hy])
 
 /-! ### the list computations of the four rewrites -/
 
@@ -719,8 +725,14 @@ theorem applyFound_ok {cx : Ctx} {C : List Conn} (w : TimeWF cx C) (hs : SliceOK
         simp only [hl]
         have hok := splice1 w su.hok su.hFe su.hFx su.hTe su.hTx su.hrT
           (F' := { F with walk := T.walk, dist := T.dist, exit := some c }) su.hFe rfl rfl hr ha (by rw [hcn, su.n1 h1])
+        have hcT : c.arr ≤ xT.arr := by
+          have hFM : LegsOK cx C (F :: (M ++ T :: B)) := LegsOK_append_right su.hok
+          have ht := chain_time w hFM su.hFx su.hTe
+          have hTda := w.depArr _ su.hrT.1 _ su.hrT.2.1 su.hrT.2.2.1 su.hrT.2.2.2.1
+          have hmw := effWait_nonneg eT cx.p.minWait w.mw
+          omega
         exact conclude1 su (F' := { F with walk := T.walk, dist := T.dist, exit := some c }) rfl rfl
-          (by rw [hcn, su.n1 h1]) hok
+          (by rw [hcn, su.n1 h1]) hcT hok
   · -- BTS
     simp only [h2, hgF, hgT, su.hTe, su.hTx]
     cases hfind : (revSlice cx.ds eT.trip (eT.seq - 1) (xT.seq - 1)).find? (fun c => decide (c.depStop = f.node)) with
